@@ -13,6 +13,7 @@ import (
 	"sort"
 	"strings"
 	"sync"
+	"time"
 
 	"verif/harness/internal/ev"
 	"verif/harness/internal/rn"
@@ -141,7 +142,7 @@ type runResult struct {
 func staticcheck(dir, cache string, args ...string) (*runResult, error) {
 	cmd := exec.Command(filepath.Join(ev.BinDir(), "staticcheck"), args...)
 	cmd.Dir = dir
-	cmd.Env = append(os.Environ(), "STATICCHECK_CACHE="+cache, "GOFLAGS=-mod=mod", "GOPROXY=off", "GOWORK=off")
+	cmd.Env = append(os.Environ(), "STATICCHECK_CACHE="+cache, "GOFLAGS=-mod=mod", "GOPROXY=off", "GOWORK=off", "GOMAXPROCS=4")
 	var o, e bytes.Buffer
 	cmd.Stdout, cmd.Stderr = &o, &e
 	err := cmd.Run()
@@ -335,7 +336,7 @@ func evaluate(c *Case, cache string) (results []variantResult, genInvalid string
 // quality describes the baseline of a case.
 type quality struct {
 	problems, checks, lines int
-	twoChecksOneLine       bool
+	twoChecksOneLine        bool
 }
 
 func evaluateQ(c *Case, cache string) (results []variantResult, q quality, genInvalid string, infra string) {
@@ -348,15 +349,19 @@ func evaluateQ(c *Case, cache string) (results []variantResult, q quality, genIn
 	if err := writeModule(c, dir); err != nil {
 		return nil, q, "", err.Error()
 	}
+	t0 := time.Now()
 	runA, err := staticcheck(dir, cache, c.args(true)...)
 	if err != nil {
 		return nil, q, "", err.Error()
 	}
+	t1 := time.Now()
 	runB, err := staticcheck(dir, cache, c.args(false)...)
 	if err != nil {
 		return nil, q, "", err.Error()
 	}
 	ev.Count("staticcheck_runs", 2)
+	ev.Count("ms_in_runs_with_show_ignored", int(t1.Sub(t0).Milliseconds()))
+	ev.Count("ms_in_runs_without_show_ignored", int(time.Since(t1).Milliseconds()))
 	r0 := runA.byPkg["p0"]
 	for _, p := range r0 {
 		if p.Code == "compile" || p.Code == "staticcheck" || p.Code == "config" {
@@ -801,4 +806,3 @@ func checksClass(c *Case) string {
 	}
 	return s + "_via_" + c.ChecksVia
 }
-
